@@ -1194,7 +1194,10 @@ def run(run):
                 hist["eval_agree"] += 1
                 continue
             kflag, doms = k_pushin_empty(f, closed, t)
-            if kflag and vs == ("ok", "FALSE") and vc == ("ok", "TRUE") and "K_pushin_empty" in known:
+            # K_pushin_empty: the conjunct left outside the pushed-in quantifier is evaluated although the documented
+            # closure is vacuously true: the sugar is FALSE, or evaluating that conjunct raises (e.g. str.to.int of a
+            # non-numeral: DomainError)
+            if kflag and (vs == ("ok", "FALSE") or vs[0] == "raise") and vc == ("ok", "TRUE") and "K_pushin_empty" in known:
                 hist["known_pushin_empty"] += 1
                 run.known(known["K_pushin_empty"]["what"])
                 continue
@@ -1206,16 +1209,18 @@ def run(run):
                               "K_dotdot_polarity": kd, "K_fresh_clash": kf, "K_root_also_free": kr, "K_xpath_dup": kx})
         hist["nonconstant_formulas"] += len(verdicts) > 1
 
-    # ---- tie (i) in Coq, one shard per grammar chunk
+    # ---- tie (i) in Coq.  Every coqc process costs seconds of start-up/import CPU (much more on a loaded machine),
+    # the vm_compute itself is negligible: few, large shards; the grammar travels with the case
     disagreements = []
     shards, smeta = [], []
-    for gi in range(len(GRAMMARS)):
-        cs = [(c, m) for (g2, c), m in zip(cases, meta) if g2 == gi]
-        for k in range(0, len(cs), 120):
-            chunk = cs[k:k + 120]
-            shards.append((f"Definition G : grammar := {g_grammar(canonical(GRAMMARS[gi]))}.\n", [c for c, _ in chunk]))
-            smeta.append([m for _, m in chunk])
-    ok_def = "fun c : sform * res cform => let '(s, r) := c in res_eqb cf_eqb (elab G s) r"
+    gdefs = "".join(f"Definition G{gi} : grammar := {g_grammar(canonical(g))}.\n" for gi, g in enumerate(GRAMMARS))
+    per = 130 if thorough else 190
+    allc = [(f"(G{gi}, {c[1:]}", m) for (gi, c), m in zip(cases, meta)]     # c = "(sform, res)" -> "(Gi, sform, res)"
+    for k in range(0, len(allc), per):
+        chunk = allc[k:k + per]
+        shards.append((gdefs, [c for c, _ in chunk]))
+        smeta.append([m for _, m in chunk])
+    ok_def = "fun c : grammar * sform * res cform => let '(g, s, r) := c in res_eqb cf_eqb (elab g s) r"
     try:
         bad, dt = lib.coq_run_shards("c08", "Str Outcome Tree Grammar Formula Sugar", ok_def, shards)
         run.cov["coq_seconds_ast"] = round(dt, 1)
